@@ -172,6 +172,77 @@ def check_compose(case, ctx):
             == hd.xpub(), "compose/public_identity")
 
 
+# --------------------------------------------------------------- object reuse
+
+REUSE_OPS = ["child", "pub_child", "traverse", "pub_traverse", "xprv", "xpub", "pub_xpub", "xprv_v", "xpub_v",
+             "fingerprint", "pub_raw", "parse_back"]
+
+
+def reuse_cases(tier):
+    op = st.tuples(st.sampled_from(REUSE_OPS), st.integers(0, 3), st.integers(0, 4))
+    return st.fixed_dictionaries({
+        "seed": seeds(), "testnet": st.booleans(),
+        "base": st.lists(indexes(), max_size=2),
+        "kids": st.tuples(unhardened(), unhardened(), indexes(), indexes()),
+        "ops": st.lists(op, min_size=3, max_size=8),
+    })
+
+
+def check_reuse(case, ctx):
+    """one HDPrivateKey object (and its .pub) answers a whole sequence of queries"""
+    net = "testnet" if case["testnet"] else "mainnet"
+    try:
+        node = bip32.Node.master(case["seed"]).derive(case["base"])
+    except ValueError:
+        raise Discard("invalid key")
+    prvs, pubs = (TEST_PRV, TEST_PUB) if case["testnet"] else (MAIN_PRV, MAIN_PUB)
+    hd = HDPrivateKey.from_seed(case["seed"], network=net)
+    for i in case["base"]:
+        hd = hd.child(i)
+    ctx.nontrivial()
+    kids = case["kids"]
+    seen = set()
+    for what, a, b in case["ops"]:
+        ctx.label("op:" + what)
+        if what in seen:
+            ctx.label("repeated_query")
+        seen.add(what)
+        i = kids[a]
+        vprv, vpub = bytes.fromhex(prvs[b]), bytes.fromhex(pubs[b])
+        if what == "child":
+            same_priv(node.ckd_priv(i), must(hd.child, "reuse/child", i), "reuse/child", net)
+        elif what == "pub_child":
+            if i < HARD:
+                same_pub(node.neuter().ckd_pub(i), must(hd.pub.child, "reuse/pub_child", i), "reuse/pub_child", net)
+            else:
+                st_, _ = attempt(hd.pub.child, i)
+                require(st_ == "exc", "reuse/hardened_from_public_not_refused")
+        elif what == "traverse":
+            p = [kids[a], kids[(a + 1) % 4]]
+            same_priv(node.derive(p), must(hd.traverse, "reuse/traverse", path_str(p, "h")), "reuse/traverse", net)
+        elif what == "pub_traverse":
+            p = [kids[a % 2], kids[(a + 1) % 2]]
+            same_pub(node.neuter().derive(p), must(hd.pub.traverse, "reuse/pub_traverse", path_str(p)),
+                     "reuse/pub_traverse", net)
+        elif what == "xprv":
+            require(hd.xprv() == node.xprv(bytes.fromhex(DEFAULT_PRV[net])), "reuse/xprv")
+        elif what == "xpub":
+            require(hd.xpub() == node.xpub(bytes.fromhex(DEFAULT_PUB[net])), "reuse/xpub")
+        elif what == "pub_xpub":
+            require(hd.pub.xpub() == node.xpub(bytes.fromhex(DEFAULT_PUB[net])), "reuse/pub_xpub")
+        elif what == "xprv_v":
+            require(hd.xprv(version=vprv) == node.xprv(vprv), "reuse/xprv_version")
+        elif what == "xpub_v":
+            require(hd.xpub(version=vpub) == node.xpub(vpub) == hd.pub.xpub(version=vpub), "reuse/xpub_version")
+        elif what == "fingerprint":
+            require(hd.fingerprint() == node.fingerprint() == hd.pub.fingerprint(), "reuse/fingerprint")
+        elif what == "pub_raw":
+            require(hd.pub.raw_serialize() == node.raw_pub(bytes.fromhex(DEFAULT_PUB[net])), "reuse/pub_raw_serialize")
+        elif what == "parse_back":
+            back = must(HDPrivateKey.parse, "reuse/parse", hd.xprv())
+            require(back.xprv() == hd.xprv() and back.xpub() == hd.xpub(), "reuse/parse_back")
+
+
 # ---------------------------------------------------------------------- codec
 
 
@@ -285,6 +356,9 @@ SUBS = [
         budget={"quick": 260, "thorough": 10000},
         required=[f"notation:{m}{s}" for m in "mM" for s in "'hH"],
         nontrivial_rule="path crossing the hardened boundary or depth >= 3"),
+    Sub("object_reuse", check_reuse, strategy=reuse_cases, stateful=True,
+        budget={"quick": 220, "thorough": 8000}, required=["op:" + o for o in REUSE_OPS] + ["repeated_query"],
+        nontrivial_rule="every history (3..8 queries on one key object)"),
     Sub("xkey_codec", check_codec, strategy=codec_cases,
         budget={"quick": 500, "thorough": 20000},
         required=["version:" + v for v in MAIN_PRV + MAIN_PUB + TEST_PRV + TEST_PUB]
